@@ -62,8 +62,12 @@ class _Timeout(Exception):
     pass
 
 
+_fired = [False]
+
+
 def _alarm(_sig, _frm):
-    signal.alarm(1)  # fire again soon: an exception raised inside a C callback (rtree) is swallowed
+    _fired[0] = True
+    signal.alarm(1)  # fire again soon: an exception raised inside a C callback (rtree, ctypes) is swallowed or re-wrapped
     raise _Timeout()
 
 
@@ -300,13 +304,14 @@ def real_program(item):
 
         pruning.pruneVisibility = watching
         t0 = time.time()
+        _fired[0] = False
         signal.alarm(COMPILE_GUARD_S)
         try:
             sc = scenic.scenarioFromString(text, mode2D=False)
             return sc, time.time() - t0, None
-        except _Timeout:
-            return None, time.time() - t0, "TIMEOUT"
         except BaseException as e:  # noqa: the refusal class is the observation
+            if _fired[0] or isinstance(e, _Timeout):
+                return None, time.time() - t0, "TIMEOUT"
             return None, time.time() - t0, f"{type(e).__name__}: {e}"[:300]
         finally:
             signal.alarm(0)
@@ -372,6 +377,7 @@ def real_program(item):
     scenes = []
     lost = []
     rejected = 0
+    _fired[0] = False
     signal.alarm(120)
     try:
         for _n in range(nscenes):
@@ -397,7 +403,9 @@ def real_program(item):
                                  "scene": [[round(o.position.x, 3), round(o.position.y, 3), round(o.position.z, 3),
                                             round(o.heading, 4)] for o in scene.objects]})
             scenes.append(rec)
-    except _Timeout:
+    except BaseException as e:  # the alarm may surface re-wrapped (ctypes.ArgumentError)
+        if not (_fired[0] or isinstance(e, _Timeout)):
+            raise
         out["sampling_timeout"] = True
     finally:
         signal.alarm(0)
@@ -460,7 +468,7 @@ def lattice_part(ck, tier, pairing):
     fam_stats = {}
     dropped_why = []
     tot = dict(probes=0, feasible_probes=0, lost_probes=0, outside_base_probes=0, scenes=0, lost_scenes=0,
-               refused_unsat=0, random_final_region=0, dropped=0)
+               refused_unsat=0, random_final_region=0, dropped=0, sampling_timeouts=0)
     for p, rr in zip(progs, results):
         fs = fam_stats.setdefault(p["fam"], dict(programs=0, objects=0, nontrivial=0))
         fs["programs"] += 1
@@ -588,6 +596,7 @@ def lattice_part(ck, tier, pairing):
                              dict(base_replay, object=oid, changed=ro["changed_props"]))
 
         # ---- differential
+        tot["sampling_timeouts"] += 1 if rr.get("sampling_timeout") else 0
         tot["scenes"] += rr.get("scenes", 0)
         ck.validated(rr.get("scenes", 0) - len({json.dumps(x["scene"]) for x in rr.get("lost_scenes", [])}))
         if rr.get("lost_scenes"):
